@@ -151,8 +151,11 @@ class GenRun:
     `forest` (forest line of the re-parsed files, in the os.walk order the generator uses),
     `walk_order` (dirs in that order).  `load()` imports the generated code; `get_class(name)`."""
 
-    def __init__(self, files, repo: str | None = None, run: bool = True):
+    def __init__(self, files, repo: str | None = None, run: bool = True, fresh_modules: bool = True):
         self.files = list(files)
+        # fresh_modules=False: reuse the generator modules already imported from the same checkout (much faster;
+        # used where only acceptance is observed and thousands of specifications are tried)
+        self.fresh_modules = fresh_modules
         self.repo = repo or os.environ.get("VERIF_REPO", "/repo")
         self.scratch = tempfile.mkdtemp(prefix="genrun-", dir="/var/tmp")
         self.src = os.path.join(self.scratch, "src")
@@ -193,7 +196,10 @@ class GenRun:
 
     # ---- generator ----
     def generate(self):
-        _purge("protocol_code_generator")
+        loaded = sys.modules.get("protocol_code_generator.generate.code_generator")
+        same = loaded is not None and os.path.abspath(getattr(loaded, "__file__", "")).startswith(os.path.abspath(self.repo) + os.sep)
+        if self.fresh_modules or not same:
+            _purge("protocol_code_generator")
         sys.path.insert(0, self.repo)
         buf = io.StringIO()
         try:
